@@ -81,6 +81,8 @@ Section Heap.
   Definition pvalues (q : pq) : list A := map val (items q).
   (* Purge does not reset insertionCount *)
   Definition ppurge (q : pq) : pq := mkPq [] (icount q) (pclosed q).
+  (* PriorityQueue.PurgeValues: contents (array order) and reset under one lock *)
+  Definition ppurge_values (q : pq) : list A * pq := (pvalues q, ppurge q).
   Definition pclose (q : pq) : pq := mkPq (items q) (icount q) true.
 
 End Heap.
